@@ -981,6 +981,7 @@ class Compiler:
         old_constants = self.constants
         old_locals = self.locals
         old_loop_stack = self.loop_stack
+        old_try_stack = self.try_stack
         old_in_function = self._in_function
         old_free_vars = self._free_vars
         old_cell_vars = self._cell_vars
@@ -994,6 +995,7 @@ class Compiler:
         self.constants = []
         self.locals = [p.name for p in node.params] + ["arguments"]
         self.loop_stack = []
+        self.try_stack = []
         self._in_function = True
 
         # Collect all var declarations to know the full locals set
@@ -1040,6 +1042,7 @@ class Compiler:
         self.constants = old_constants
         self.locals = old_locals
         self.loop_stack = old_loop_stack
+        self.try_stack = old_try_stack
         self._in_function = old_in_function
         self._free_vars = old_free_vars
         self._cell_vars = old_cell_vars
@@ -1066,6 +1069,7 @@ class Compiler:
         old_constants = self.constants
         old_locals = self.locals
         old_loop_stack = self.loop_stack
+        old_try_stack = self.try_stack
         old_in_function = self._in_function
         old_free_vars = self._free_vars
         old_cell_vars = self._cell_vars
@@ -1086,6 +1090,7 @@ class Compiler:
             self.locals.append(name)
 
         self.loop_stack = []
+        self.try_stack = []
         self._in_function = True
 
         # Collect all var declarations to know the full locals set
@@ -1138,6 +1143,7 @@ class Compiler:
         self.constants = old_constants
         self.locals = old_locals
         self.loop_stack = old_loop_stack
+        self.try_stack = old_try_stack
         self._in_function = old_in_function
         self._free_vars = old_free_vars
         self._cell_vars = old_cell_vars
